@@ -1,7 +1,14 @@
 """Regenerate MANIFEST.json from tools/manifest_src.py (keeps it valid and uniform)."""
 import json, sys
 sys.path.insert(0, '/verif')
-from tools.manifest_src import CHECKS, NOT_APPLICABLE, NOTES
+import importlib, os
+from tools.manifest_src import NOT_APPLICABLE, NOTES
+CHECKS = {}
+for f in sorted(os.listdir('/verif/checks')):
+    if f.startswith('c') and f.endswith('.py') and f[1:3].isdigit():
+        mod = importlib.import_module('checks.' + f[:-3])
+        if hasattr(mod, 'MANIFEST'):
+            CHECKS[f[:-3].upper()] = mod.MANIFEST
 props = [json.loads(l)['id'] for l in open('/verif/properties.jsonl')]
 checks = []
 for pid in props:
